@@ -30,7 +30,8 @@ ASSUMPTIONS = ['densities and material fractions are only respelled within their
 def plan(tier):
     q = tier == 'quick'
     return [('restyle', 150 if q else 3000, {}), ('corpus', 1, {}), ('cards', 200 if q else 3000, {}),
-            ('blocks', 300 if q else 6000, {}), ('cellsplit', 200 if q else 4000, {})]
+            ('blocks', 300 if q else 6000, {}), ('cellsplit', 200 if q else 4000, {}),
+            ('cardsplit', 200 if q else 4000, {}), ('opttokens', 200 if q else 4000, {})]
 
 
 def search_plan(tier, disagreements):
@@ -96,6 +97,10 @@ def run_case(stream, seed, ctx, params):
         return blocks_case(seed, rng, ctx)
     if stream == 'cellsplit':
         return cellsplit_case(seed, rng, ctx)
+    if stream == 'cardsplit':
+        return cardsplit_case(seed, rng, ctx)
+    if stream == 'opttokens':
+        return opttokens_case(seed, rng, ctx)
     d = base_deck(rng)
     if d is None:
         return None
@@ -239,6 +244,129 @@ def blocks_case(seed, rng, ctx):
                 sample={'text': text, 'blocks': code if isinstance(code, dict) else list(code)}, failures=fails)
 
 
+def opttokens_case(seed, rng, ctx):
+    """the keyword tokens parse_one_cell_worker hands to parse_keywords vs the Lean model optTokens, on the option
+    texts of the cells of generated / restyled decks (every letter case, blanks around ':' and '=', parentheses)
+    and on synthetic option texts"""
+    from t4_geom_convert.Kernel.FileHandlers.Parser.ParseMCNPCell import ParseMCNPCell
+    pairs = []
+    if rng.random() < 0.5:
+        d = base_deck(rng)
+        if d is None:
+            return None
+        text = D.render_deck(d, D.Layout(rng), imp_on_cards=d.imp_cards is None)
+        if rng.random() < 0.7:
+            text, _ = R.restyle(text, rng)
+        seen = {}
+        orig_w, orig_k = ParseMCNPCell.parse_one_cell_worker, ParseMCNPCell.parse_keywords
+
+        def worker(self, rank, lat_opt, parsed_cell):
+            seen['opt'] = parsed_cell[2]
+            return orig_w(self, rank, lat_opt, parsed_cell)
+
+        def keywords(self, kw_list):
+            if 'opt' in seen:
+                pairs.append((seen.pop('opt'), list(reversed(kw_list))))
+            return orig_k(self, kw_list)
+        ParseMCNPCell.parse_one_cell_worker, ParseMCNPCell.parse_keywords = worker, keywords
+        try:
+            impl.convert(text, [x for lo in (d.lattice_opts or []) for x in ('--lattice', lo)])
+        finally:
+            ParseMCNPCell.parse_one_cell_worker, ParseMCNPCell.parse_keywords = orig_w, orig_k
+    else:
+        import re as _re
+        for _ in range(8):
+            ws = []
+            for _ in range(rng.randint(0, 5)):
+                ws.append(rng.choice(['imp:n=1', 'IMP:N,P = 0', 'imp : n=.5', 'u=2', 'U = -3', '*fill=3 (1 0 0)', 'FILL=4(2)',
+                                      'fill=0:1 0:0 0:0 1 2', 'trcl=(0 0 1)', '*TRCL = ( 1 2 3 30 60 90 120 30 90 90 90 0 )',
+                                      'lat=1', 'Mat=2', 'RHO=-2.7', 'vol=1', 'tmp=2.5e-8', ': :', '=', '((', 'imp:p  =  1']))
+            opt = rng.choice(['', ' ', '  ']).join(ws) if rng.random() < 0.3 else ' '.join(ws)
+            o2 = _re.sub(' *: *', ':', opt)
+            o2 = o2.lower().replace('(', ' ').replace(')', ' ').replace('=', ' ')
+            pairs.append((opt, o2.split()))
+    pairs = [(o, t) for o, t in pairs if all(ord(c) < 128 for c in o)]
+    fails, hs = [], []
+    for opt, toks in pairs:
+        want = ('ok ' + ' '.join('=' + lean.hx(t) for t in toks)).rstrip()
+        got = ctx['drv'].ask('opttokens ' + lean.hx(opt)).rstrip()
+        hs.append(h(opt))
+        if want != got:
+            fails.append(fail('disagreement', 'option tokens of %r: code %r / model %s' % (opt, toks, got[:200]),
+                              {'stream': 'opttokens'}, {'options': opt}))
+    return dict(evaluations=len(pairs), hashes=hs, nontrivial_hashes=[x for x, (o, t) in zip(hs, pairs) if len(t) > 1],
+                dist={'opttokens:texts': len(pairs), 'opttokens:tokens': sum(len(t) for o, t in pairs)},
+                sample={'options': [o for o, t in pairs[:3]]}, failures=fails[:5])
+
+
+def cardsplit_case(seed, rng, ctx):
+    """surfacecard.split and datacard.split vs the Lean models, on the contents of the surface and data cards of
+    generated / restyled decks and on synthetic mutated cards"""
+    from MIP.mip import surfacecard, datacard
+    from MIP.mip.cards import get_cards
+    from MIP.mip.main import Card
+
+    def enc(g):
+        return 'ok ' + ' '.join('=' + lean.hx(x) for x in g)
+
+    def code(kind, t):
+        try:
+            return enc((surfacecard if kind == 's' else datacard).split(t))
+        except AttributeError:
+            return 'ok error noMatch'
+    items = []
+    if rng.random() < 0.5:
+        d = base_deck(rng)
+        if d is None:
+            return None
+        text = D.render_deck(d, D.Layout(rng), imp_on_cards=d.imp_cards is None)
+        if rng.random() < 0.7:
+            text, _ = R.restyle(text, rng)
+        from MIP.mip.blocks import get_block_positions
+        try:
+            bi = get_block_positions(text, firstblock=None)
+        except Exception:  # noqa
+            return None
+        for b in 'sd':
+            if b in bi:
+                (i1, i2), _ = bi[b]
+                items += [(b, Card(lines=c, position=n, type=b).content()) for c, n, t in get_cards(text[i1:i2], skipcomments=True)
+                          if t == 'card']
+    else:
+        def mut(t):
+            if rng.random() < 0.35:
+                i = rng.randrange(len(t) + 1)
+                t = t[:i] + rng.choice(' *+-/a1. \t') + t[i:]
+            if rng.random() < 0.2 and t:
+                i = rng.randrange(len(t))
+                t = t[:i] + t[i + 1:]
+            return t
+        for _ in range(8):
+            if rng.random() < 0.5:
+                items.append(('s', mut(rng.choice(['', '*', '+', '+*', ' ']) + rng.choice(['1', '12', '007'])
+                                       + rng.choice([' ', '  ', '\t']) + rng.choice(['', '3 ', '-3 ', '+12  ', '5'])
+                                       + rng.choice(['px', 'PX', 'c/z', 'K/X', 'so', 'gq', 'x', 'rpp', 'tz'])
+                                       + rng.choice([' ', '  ', '']) + rng.choice(['5', '-1.5 2 3', '1e-3 .5', '', '0 0 0 1 j 2']))))
+            else:
+                items.append(('d', mut(rng.choice(['', '*', ' ', '**'])
+                                       + rng.choice(['m', 'M', 'tr', 'TR', 'imp:n', 'imp:n,p', 'mode', 'nps', 'f', 'fm', 'sdef', 'm1mt'])
+                                       + rng.choice(['', '1', '12', '4*', '*']) + rng.choice([' ', '  ', ''])
+                                       + rng.choice(['1001 .5', '1 1 0', '.5 1r', 'n p', '1e5', '0 0 1 30 60 90 120 30 90 90 90 0', '']))))
+    items = [(k, t) for k, t in items if '\n' not in t]
+    fails, hs, dist = [], [], {}
+    for kind, t in items:
+        a = code(kind, t)
+        b = ctx['drv'].ask(('surfsplit ' if kind == 's' else 'datasplit ') + lean.hx(t))
+        k = 'cardsplit:%s-%s' % ('surface' if kind == 's' else 'data', 'noMatch' if a.startswith('ok error') else 'split')
+        dist[k] = dist.get(k, 0) + 1
+        hs.append(h((kind, t)))
+        if a != b:
+            fails.append(fail('disagreement', '%scard.split(%r): code %s / model %s' % ('surface' if kind == 's' else 'data', t, a[:200], b[:200]),
+                              {'stream': 'cardsplit'}, {'card': t, 'kind': kind}))
+    return dict(evaluations=len(items), hashes=hs, nontrivial_hashes=hs, dist=dist,
+                sample={'cards': items[:3]}, failures=fails[:5])
+
+
 def cellsplit_case(seed, rng, ctx):
     """cellcard.split vs the Lean model on the one-line content of cell cards: half taken from generated decks
     (canonical and restyled: every letter case, Fortran spellings, options of every kind), half synthetic and
@@ -357,6 +485,13 @@ def replay(payload, ctx):
         from MIP.mip.main import Card
         out['code'] = [Card(lines=c, position=n, type='c').content() for c, n, t in get_cards(p['block'], skipcomments=True)]
         out['model'] = [lean.unhx(x) for x in ctx['drv'].ask('cards ' + lean.hx(p['block'])).split()[1:]]
+    if 'card' in p:
+        from MIP.mip import surfacecard, datacard
+        try:
+            out['code'] = list((surfacecard if p.get('kind') == 's' else datacard).split(p['card']))
+        except Exception as e:  # noqa
+            out['code'] = 'error %s' % type(e).__name__
+        out['model'] = ctx['drv'].ask(('surfsplit ' if p.get('kind') == 's' else 'datasplit ') + lean.hx(p['card']))
     if 'content' in p:
         from MIP.mip import cellcard
         try:
